@@ -12,7 +12,10 @@ Judge(e) ==
       nopanic == ~a.panic /\ ~b.panic
       agree == a.ok = b.ok /\ (a.ok => (a.F = b.F /\ a.G = b.G))
       inv == a.ok => DetInvariant(e.f, e.g, e.F, e.G, a.F, a.G)
-      mult == IF a.ok THEN MultipleOf(e.f, e.g, VecSub(e.F, a.F), VecSub(e.G, a.G)) ELSE [decided |-> FALSE, holds |-> TRUE, kmax |-> 0]
+      \* families without an a-priori bound on the quotient (ill-conditioned (f, g): the quotient may exceed the range of the
+      \* two-prime reconstruction, which would then speak about a wrong k): the multiple is left to DetInvariant there
+      kfree == e.tag \in {"ill-conditioned-fg-large-FG", "ill-conditioned-fg-small-FG"}
+      mult == IF a.ok /\ ~kfree THEN MultipleOf(e.f, e.g, VecSub(e.F, a.F), VecSub(e.G, a.G)) ELSE [decided |-> FALSE, holds |-> TRUE, kmax |-> 0]
       idem == a.ok => (/\ ~e.i32_second.panic /\ e.i32_second.ok /\ e.i32_second.F = a.F /\ e.i32_second.G = a.G
                        /\ (b.ok => (~e.big_second.panic /\ e.big_second.ok /\ e.big_second.F = b.F /\ e.big_second.G = b.G)))
       \* every family the driver builds has an invertible f f* + g g*: the reduction must return (an Err is the
